@@ -17,11 +17,12 @@
     turns every rejected number into a positioned line error and reports exact
     iteration counts and the parser's values (reader_numbers_correct).
     Not proved (tied to the code by the differential run only, three-way with
-    strconv and the Coq-evaluated specification): the decimal slow path
-    (decimal.go, modelled by [rn_b64] of the stored digits; decimal.set's digit
-    bookkeeping is covered by the acceptance theorem only).
-    [atofHex] IS proved (block p03h at the end of this file: C03_hex_correct,
-    C03_parse_float_correct; proofs in Proofs/AtofHex.v). *)
+    strconv and the Coq-evaluated specification): nothing of ParseFloat remains
+    differential-only. [atofHex] IS proved (block p03h at the end of this file:
+    C03_hex_correct, C03_parse_float_correct; proofs in Proofs/AtofHex.v), and the
+    decimal slow path (decimal.go, in [parse_float] modelled by [rn_b64] of the
+    stored digits) is transcribed in Model/Decimal.v and proved equal to that
+    model (block p03d at the end of this file). *)
 From Coq Require Import Reals.
 From Flocq Require Import Core.Core IEEE754.BinarySingleNaN.
 From Perf Require Import Base.Bytes Base.B64 Base.DecSpec Model.Atoi Model.Atof
@@ -386,3 +387,194 @@ Proof.
   vm_compute. repeat split.
 Qed.
 (** ** END block p03h *)
+
+(** ======================================================================
+    BEGIN block p03d — decimal.go / floatBits transcribed and verified
+    (Model/Decimal.v; proofs in Proofs/DecimalBase.v, DecimalShift.v,
+    DecimalValue.v, DecimalRound.v, DecimalInv.v, DecimalPhases.v,
+    DecimalBits.v, DecimalFloatBits.v, DecimalEndToEnd.v)
+
+    The slow decimal path is no longer "modelled by its specification": the
+    statement-by-statement transcription [floatBits] of decimal.go / atof.go is
+    proved to return the correctly rounded binary64 of the stored number
+    (C03_decimal_floatBits_correct), so that the model of ParseFloat built on the
+    transcription equals the one built on the specification on EVERY text
+    (C03_parse_float_code_eq); every theorem above about [parse_float] therefore
+    holds for [parse_float_code], the model that is code all the way down.
+    ====================================================================== *)
+From Perf Require Import Model.Decimal Proofs.DecimalBase Proofs.DecimalShift Proofs.DecimalValue Proofs.DecimalRound
+                         Proofs.DecimalInv Proofs.DecimalPhases Proofs.DecimalFloatBits Proofs.DecimalEndToEnd.
+
+(** A decimal is well formed ([wf]) when its digits are 0..9, at most 800 of them,
+    and the first one is not zero; [Vr a] = 0.d1 d2 ... d_nd * 10^dp is the real
+    number it denotes; [shifted a a' s lost] says: a' is well formed and trimmed,
+    has the sign of a, and  Vr a' + lost = Vr a * s  with
+    0 <= lost < 10^(dp' - 800)  (less than one unit of the 800th digit of a'),
+    [trunc] unchanged when lost = 0 and set when lost <> 0. *)
+
+(** the cheat sheet of leftShift holds what its comment says: entry k (1..60) is
+    the number of decimal digits of 2^k and the decimal digits of 5^k *)
+Theorem C03_leftcheats_table : forall k, 0 <= k <= 60 ->
+  exists d c, nth (Z.to_nat k) leftcheats (0, []) = (d, c) /\ digits_ok c /\
+    ((k = 0 /\ d = 0 /\ c = []) \/
+     (1 <= k /\ dv c = 5 ^ k /\ zlen c = k - d + 1 /\ 10 ^ (d - 1) <= 2 ^ k < 10 ^ d /\ 1 <= d /\ last c 0 <> 0)).
+Proof. exact leftcheat_facts. Qed.
+Print Assumptions C03_leftcheats_table.
+
+(** rightShift divides by 2^k exactly. Nothing is lost unless the quotient needs
+    more than 800 digits; then exactly the digits beyond the 800th are dropped and
+    [trunc] records whether one of them was non-zero. No machine word overflows
+    and the loops terminate (the transcription returns [Some]). *)
+Theorem C03_decimal_rightShift_exact : forall a k, wf a -> 0 <= k <= 60 ->
+  exists a' lost, rightShift a k = Some a' /\ shifted a a' (bpow radix2 (- k)) lost.
+Proof. exact rightShift_real. Qed.
+Print Assumptions C03_decimal_rightShift_exact.
+
+(** leftShift multiplies by 2^k exactly, with the same rule at the 800-digit
+    limit; the cheat sheet predicts the number of new digits exactly, so the write
+    index ends at 0 (no stale leading byte, no index out of range) *)
+Theorem C03_decimal_leftShift_exact : forall a k, wf a -> 0 <= k <= 60 ->
+  exists a' lost, leftShift a k = Some a' /\ shifted a a' (bpow radix2 k) lost.
+Proof. exact leftShift_real. Qed.
+Print Assumptions C03_decimal_leftShift_exact.
+
+(** the same on integers: the digits written [out] followed by the dropped digits
+    [dr] are the decimal expansion of the quotient / product *)
+Theorem C03_decimal_rightShift_digits : forall a k, wf a -> 0 <= k <= 60 ->
+  exists out dp' tr' dr s,
+    rightShift a k = Some (trim (mkDecimal out dp' (dc_neg a) tr')) /\
+    digits_ok out /\ 0 < zlen out <= 800 /\ (exists c r, out = c :: r /\ c <> 0) /\
+    digits_ok dr /\ 0 <= s /\
+    (dv out * 10 ^ zlen dr + dv dr) * (10 * 2 ^ k) = dv (dc_d a) * 10 ^ s /\
+    dp' - zlen out = (dc_dp a - zlen (dc_d a)) - s + 1 + zlen dr /\
+    tr' = dc_trunc a || (0 <? dv dr) /\ (dr <> [] -> zlen out = 800).
+Proof. exact rightShift_int. Qed.
+Print Assumptions C03_decimal_rightShift_digits.
+
+Theorem C03_decimal_leftShift_digits : forall a k, wf a -> 0 <= k <= 60 ->
+  exists out delta tr' dr,
+    leftShift a k = Some (trim (mkDecimal out (dc_dp a + delta) (dc_neg a) tr')) /\
+    digits_ok out /\ 0 < zlen out <= 800 /\ (exists c r, out = c :: r /\ c <> 0) /\
+    digits_ok dr /\
+    dv out * 10 ^ zlen dr + dv dr = dv (dc_d a) * 2 ^ k /\
+    zlen out + zlen dr = zlen (dc_d a) + delta /\ 0 <= delta /\
+    tr' = dc_trunc a || (0 <? dv dr) /\ (dr <> [] -> zlen out = 800).
+Proof. exact leftShift_int. Qed.
+Print Assumptions C03_decimal_leftShift_digits.
+
+(** RoundedInteger is round-half-even of the represented number; with [trunc] set
+    (the true number is a little above the recorded one) an exact tie goes up *)
+Theorem C03_decimal_roundedInteger_correct : forall a, wf a -> trimmed a -> dc_dp a <= 19 ->
+  roundedInteger a = sticky_rne (Vr a) (dc_trunc a).
+Proof. exact roundedInteger_correct. Qed.
+Print Assumptions C03_decimal_roundedInteger_correct.
+
+(** ... which is the nearest-even integer of every x that the decimal approximates
+    from below without an integer or half-integer in between *)
+Theorem C03_sticky_rounding_is_nearest_even : forall v sticky x,
+  (v <= x)%R -> (sticky = false -> x = v) -> (sticky = true -> (v < x)%R) ->
+  (forall h : Z, (v < IZR h / 2)%R -> (x < IZR h / 2)%R) ->
+  sticky_rne v sticky = ZnearestE x.
+Proof. exact sticky_rne_nearest. Qed.
+Print Assumptions C03_sticky_rounding_is_nearest_even.
+
+Example C03_decimal_instances :
+  (* hypotheses are satisfiable; a shift that overflows the buffer sets trunc *)
+  wf (mkDecimal [6;2;5] 0 false false) /\ trimmed (mkDecimal [6;2;5] 0 false false) /\
+  leftShift (mkDecimal [6;2;5] 0 false false) 4 = Some (mkDecimal [1] 2 false false) /\
+  rightShift (mkDecimal [1] 1 false false) 4 = Some (mkDecimal [6;2;5] (-1) false false) /\
+  option_map dc_trunc (rightShift (mkDecimal (repeat 1 800) 0 false false) 2) = Some true /\
+  option_map dc_nd (rightShift (mkDecimal (repeat 1 800) 0 false false) 2) = Some 800 /\
+  roundedInteger (mkDecimal [2;5] 1 false false) = 2 /\ roundedInteger (mkDecimal [2;5] 1 false true) = 3.
+Proof.
+  split.
+  { split; [repeat constructor; lia|]. split; [unfold zlen; cbn; lia|]. exists 6, [2;5]. split; [reflexivity|lia]. }
+  split; [unfold trimmed; cbn; lia|]. vm_compute. repeat split.
+Qed.
+(** ** floatBits *)
+
+(** The invariant that carries correct rounding through the shifts ([Inv a x B N],
+    Proofs/DecimalInv.v): the decimal a approximates the exact scaled number x from
+    below, exactly unless [trunc] is set, and no point of the grid 2^-(B+1) Z — the
+    preimages of the integers and half-integers of the final scaling when B bounds
+    the net left shift still to come — lies in (Vr a, x].  One shift keeps it as long
+    as those grid points are representable in the 800-digit window of the result.
+    This is the precise sense in which 800 digits are enough. *)
+Theorem C03_decimal_shift_keeps_rounding_invariant : forall a a' x B N kappa lost,
+  Inv a x B N -> shifted a a' (bpow radix2 kappa) lost ->
+  dc_dp a' <= 800 -> B - kappa + 1 + dc_dp a' <= 800 -> 0 <= N <= 1000000 ->
+  Inv a' (x * bpow radix2 kappa) (B - kappa) (N + 1).
+Proof. exact inv_step. Qed.
+Print Assumptions C03_decimal_shift_keeps_rounding_invariant.
+
+(** decimal_floatBits_correct: for every well-formed decimal of at most 800 digits with
+    dp in -330..310 (outside, floatBits answers 0 / overflow at once, as the
+    specification does), whose [trunc] flag, if set, was set by the scanner on a full
+    buffer, floatBits terminates within its fuel without reading a stale byte or
+    overflowing a machine word, and the bits it assembles are the correctly rounded
+    binary64 (round to nearest even, infinity beyond the range, [overflow] flag
+    exactly then) of the number the decimal stands for: its digits, plus a little
+    when [trunc] is set.  Digits dropped inside the shifts (when a quotient or
+    product needs more than 800 digits) do not change the result. *)
+Theorem C03_decimal_floatBits_correct : forall a, wf a -> -330 <= dc_dp a <= 310 ->
+  (dc_trunc a = true -> zlen (dc_d a) = 800) ->
+  exists bits ovf, floatBits a = Some (bits, ovf) /\
+    rounds_to (dc_neg a) (signed (dc_neg a) (true_value a)) (b64_of_bits bits) /\
+    ovf = b64_is_inf (b64_of_bits bits).
+Proof. exact floatBits_rounds. Qed.
+Print Assumptions C03_decimal_floatBits_correct.
+
+(** what decimal.set hands to floatBits: nd is the number of stored digits, they are
+    digits, the first one is not '0', at most 800, and [trunc] only on a full buffer *)
+Theorem C03_decimal_set_shape : forall fixed s d, dec_set_gen fixed s = Some d -> dec_shape d.
+Proof. exact dec_set_gen_shape. Qed.
+Print Assumptions C03_decimal_set_shape.
+
+(** the modelling assumption of Model/Atof.v is a theorem: on every decimal the scanner
+    can store, the transcribed floatBits returns what the specification-based
+    [dec_float_bits] (rn_b64 of the stored digits, sticky digit when [trunc]) returns,
+    value and error *)
+Theorem C03_decimal_slow_path_is_specification : forall d, dec_shape d ->
+  dec_float_bits_code d = dec_float_bits d.
+Proof. exact dec_float_bits_code_eq. Qed.
+Print Assumptions C03_decimal_slow_path_is_specification.
+
+(** ... and so the two models of ParseFloat(s, 64) agree on every text *)
+Theorem C03_parse_float_code_eq : forall s, parse_float_code s = parse_float s.
+Proof. exact parse_float_code_eq. Qed.
+Print Assumptions C03_parse_float_code_eq.
+
+(** ParseFloat, code all the way down (scanners, exact path, transcribed decimal.go),
+    equals the specification — bit for bit, error for error — on every text that is not
+    a hexadecimal number and whose significant digits fit the 800-digit buffer *)
+Theorem C03_parse_float_code_correct_nonhex : forall s,
+  no_clamp s ->
+  (forall d, dec_set s = Some d -> d_trunc d = false) ->
+  (forall neg M E, lex_float s <> Some (LNum neg true M E)) ->
+  parse_float_code s = parse_float_spec s.
+Proof. exact parse_float_code_correct_nonhex. Qed.
+Print Assumptions C03_parse_float_code_correct_nonhex.
+
+Example C03_floatBits_instances :
+  (* the hypotheses of C03_decimal_floatBits_correct hold for the decimal of 0.1 and for a
+     full buffer with [trunc]; the transcription answers as computed *)
+  let a := mkDecimal [1] 0 false false in
+  let b := mkDecimal (repeat 9 800) 1 true true in
+  wf a /\ wf b /\ zlen (dc_d b) = 800 /\
+  floatBits a = Some (0x3FB999999999999A, false) /\
+  floatBits b = Some (0xC024000000000000, false) /\
+  dec_shape (mkDec (bs "521") 3 0 false false) /\
+  parse_float_code (bs "1.00000000000000011102230246251565404236316680908203125" ++ repeat x30 800 ++ bs "1")
+    = (b64_of_bits 0x3FF0000000000001, ErrNone).
+Proof.
+  cbv zeta. split.
+  { split; [repeat constructor; lia|]. split; [unfold zlen; cbn; lia|]. exists 1, []. split; [reflexivity|lia]. }
+  split.
+  { split; [apply Forall_forall; intros x Hx; apply repeat_spec in Hx; lia|].
+    split; [vm_compute; discriminate|]. exists 9, (repeat 9 799). split; [reflexivity|lia]. }
+  split; [vm_compute; reflexivity|].
+  split; [vm_compute; reflexivity|]. split; [vm_compute; reflexivity|].
+  split; [repeat split; try reflexivity; try (cbn; lia); intros; discriminate|].
+  vm_compute. reflexivity.
+Qed.
+(** END block p03d *)
